@@ -24,7 +24,7 @@ RULE = ("class skeletons = bases {none, one, two, inherited, diamond, base with 
         "class, class in class in function, global-declared in a function, captured by a closure, "
         "after an earlier class statement of the same name in the same module / function scope, as "
         "the taken alternative of an if/else whose other branch defines the same name}, "
-        "each with every member set of size 1 and 2 from 18 member kinds (data, computed, method, "
+        "each with every member set of size 1 and 2 from 26 member kinds (data, computed, method, "
         "static/class method, property+setter, zero- and two-argument super, __init__, decorated and "
         "plain __init_subclass__, nested class, if/while/for in the body, comprehension, lambda, "
         "closure over a module global, private-looking single underscore); size-3 sets drawn by "
@@ -102,6 +102,12 @@ MEMBERS = {
     # zero-argument super() and __class__ used ONLY by lambdas of the class body
     "lam_super": "    who = lambda self: 'L>' + super().who()\n",
     "lam_class": "    kind = lambda self: __class__.__name__\n    kind2 = staticmethod(lambda: __class__.__mro__[0].__name__)\n",
+    # members holding FALSY values (None, 0, [], False, '') read again in the class body: bound is bound
+    "falsy_data": "    x = 0\n    nn = None\n    ee = []\n    ff = False\n    ss = ''\n    y = x\n    nm = nn\n    em = ee\n    fm = ff\n    sm = [ss for _e in range(1)] + [ss]\n",
+    # ... also for names the body reads BEFORE binding them (the lowering then tests whether the member exists)
+    "readbefore_falsy": "    GLOB = GLOB and None\n    again = GLOB\n    PV = PV if False else 0\n    pv2 = PV\n    both = [GLOB, PV]\n",
+    # an f-string in the class body that reads members (a subscript with a string key after lowering)
+    "fstr": "    lbl = 'v'\n    wid = 4\n    txt = f\"{lbl}:{lbl!r:>{wid}}|{'q'}\"\n    def show(self):\n        return f'{self.lbl}-{self.txt}'\n",
     "deco_method": "    @fdeco\n    def dm(self, a=1):\n        return a * 2\n",
 }
 PLACEMENTS = ("module", "func", "cls", "cls_in_func", "global_decl", "closure",
@@ -336,6 +342,29 @@ def run(report):
     ns = env.NPROC * 4
     items = [(_sweep_shard, (i, ns, 9 if quick else 1, not quick)) for i in range(ns)]
     items += [(_drawn_shard, (env.sub_seed(report.seed, "C12", i), 40 if quick else 1500)) for i in range(env.NPROC)]
+    # host dimension: a seeded stride of the skeleton product as whole programs (stdout, canonical
+    # globals incl. the class itself) under the other host interpreters
+    from .. import hosts
+    others = hosts.available_other_hosts()
+    if others:
+        stride = 211 if quick else 23
+        hcases = []
+        for i, case in enumerate(all_cases()):
+            if i % stride != report.seed % stride:
+                continue
+            bk, mk, kk, dk, ms, where = case
+            hcases.append((PRE + place(class_source(bk, mk, kk, dk, ms), where), [env.ALL_CFGS[i % 8]]))
+        # every member kind alone, under both unparsers, on every host
+        for j, m in enumerate(sorted(MEMBERS)):
+            for where in ("module", "func", "cls_in_func"):
+                hcases.append((PRE + place(class_source("one", "implicit", "nokw", "0", (m,)), where),
+                               [("oneliner", "list", "if_expr"), ("ast.unparse", "chain_call", "short_circuit")]))
+        per_host = max(1, env.NPROC // len(others))
+        for h in others:
+            for k in range(per_host):
+                items.append((hosts.host_shard, (h, hcases[k::per_host], {}, "class program differs")))
+        report.extra["other_hosts"] = others
+        report.extra["host_cases_per_host"] = len(hcases)
     for part in env.pmap(_callf, items):
         report.absorb(part)
     report.exhaustive = not quick
